@@ -341,7 +341,7 @@ def failure_signal(prog, chk):
         # one-shot path propagates the transform result
         from sa import errfate
         sites = [s for s in errfate.result_fates(prog, run_b) if s.callee.path == "svgdx::transform_file"]
-        prop = [s for s in sites if s.fate == "propagated"]
+        prop = [s for s in sites if s.fate.split(":")[0].replace("transformed-", "") in ("propagated", "returned")]  # `?` or `return transform_file(..)`
         chk.ob(len(prop) >= 1, "A13.exit-status", "cli::run:one-shot", run_b.where(), "the one-shot path of cli::run propagates the transform error with `?`", "cli::run does not propagate the transform error on the one-shot path")
 
 
